@@ -67,7 +67,7 @@ type gzipReader struct {
 
 // Decompress implements the Compressor interface.
 func (c *CompressorGzip) Decompress(r io.Reader) (io.Reader, error) {
-	z, ok := c.poolDecompressor.Get().(*gzipReader)
+	z, ok := c.poolDecompressor.Get().(*gzip.Reader)
 	if !ok {
 		newZ, err := gzip.NewReader(r)
 		if err != nil {
@@ -76,16 +76,22 @@ func (c *CompressorGzip) Decompress(r io.Reader) (io.Reader, error) {
 		return &gzipReader{Reader: newZ, pool: &c.poolDecompressor}, nil
 	}
 	if err := z.Reset(r); err != nil {
-		z.pool.Put(z)
+		c.poolDecompressor.Put(z)
 		return nil, err
 	}
-	return z, nil
+	return &gzipReader{Reader: z, pool: &c.poolDecompressor}, nil
 }
 
+// Read returns the gzip.Reader to the pool at the end of the stream. The
+// gzipReader itself stays with its stream and keeps reporting io.EOF.
 func (z *gzipReader) Read(p []byte) (n int, err error) {
+	if z.Reader == nil {
+		return 0, io.EOF
+	}
 	n, err = z.Reader.Read(p)
 	if err == io.EOF {
-		z.pool.Put(z)
+		z.pool.Put(z.Reader)
+		z.Reader = nil
 	}
 	return n, err
 }
